@@ -232,7 +232,7 @@ def run(tier, seed):
     r.assumptions = ["sqlmodel judged against stubs/sqlmodel (pydantic.v1 forwarder)",
                      "pydantic.v1 parse_obj is the judge of value-level acceptance for pydantic/sqlmodel output",
                      "base framework: 'field without default' read as 'not annotated Optional'"]
-    budget = 240 if tier == "quick" else 1500
+    budget = 240 if tier == "quick" else 3000
     for case, res in core.pmap(execute, _cases(tier), chunksize=32, budget_s=budget):
         r.add(case, res)
     if core.pmap.capped:
